@@ -17,8 +17,12 @@ DirRules(d) ==
     UNION { UNION { PSElems(d.tiers[i].policies[j].rules) : j \in DOMAIN d.tiers[i].policies } : i \in DOMAIN d.tiers }
     \cup UNION { PSElems(d.profiles[i]) : i \in DOMAIN d.profiles }
 
+\* rules with source-side named ports: every probe also with source and destination port swapped, so that both "source
+\* port is a member's port, destination port is not" and the converse are present
+Swapped(P) == { [p EXCEPT !.sport = p.dport, !.dport = p.sport] : p \in P }
 RuleCaseProbes(r, c) ==
-    LET P == RuleProbes(r, c.ipv, c.ipsets)
+    LET P0 == RuleProbes(r, c.ipv, c.ipsets)
+        P == IF r.srcNamed # <<>> \/ r.notSrcNamed # <<>> THEN P0 \cup Swapped(P0) ELSE P0
         hit == { p \in P : RuleMatches(r, p, c.ipsets) }
     IN ThinTo(hit, CapHit, c.case) \cup ThinTo(P \ hit, CapMiss, c.case)
 
